@@ -371,7 +371,7 @@ class IkeSa(object):
         # one still served is a retransmitted IKE_SA_INIT request, which gets the stored response again
         if self.peer_crypto is not None and message.crypto is None:
             if (message.exchange_type == Message.Exchange.IKE_SA_INIT and message.is_request
-                    and message.message_id == self.peer_msg_id - 1):
+                    and message.message_id == 0 and message.message_id == self.peer_msg_id - 1):
                 return self._process_request(message)
             self.log_warning('Received an unprotected message for an IKE_SA that already has keys. Ignoring')
             return None
